@@ -284,7 +284,7 @@ func genParams(tier string, seed uint64) []Params {
 	// miss it by one, or exceed it: the model of that reader (Switchover.v) must predict what it holds
 	nB := 9
 	if tier == "thorough" {
-		nB = 90
+		nB = 45
 	}
 	for i := 0; i < nB; i++ {
 		p := genOne(r, len(out), seed, []string{"direct", "uphttp", "upgrade"}[i%3], true, true, tier)
@@ -724,6 +724,17 @@ func main() {
 		}
 		flush(len(gr.cases))
 	}
+	lookupCases := 0
+	if *replay == "" {
+		sh, n, err := runLookupDiff(*out, *seed, *tier)
+		if err != nil {
+			fmt.Fprintln(os.Stderr, "lookup differential:", err)
+			os.Exit(2)
+		}
+		shards = append(shards, sh)
+		shardIndex[sh] = [3]any{"lcases", 0, n}
+		lookupCases = n
+	}
 	all := append(append(append([]outcome(nil), outs...), realGrace...), graceOuts...)
 	var totalBytes int64
 	slowest := int64(0)
@@ -816,7 +827,7 @@ func main() {
 		}
 	}
 	meta := map[string]any{
-		"sample_trace": sampleTrace, "unmatched_accepts": unmatchedAccepts.Load(),
+		"sample_trace": sampleTrace, "closewrite_lookup_cases": lookupCases, "unmatched_accepts": unmatchedAccepts.Load(),
 		"shards": shards, "shard_index": shardIndex,
 		"scenarios": len(all), "gated_concrete": len(groups["ccases"].cases), "gated_abstract": len(groups["acases"].cases),
 		"native": len(groups["ncases"].cases), "grace_batch": len(graceOuts), "short_grace_ns": shortGrace,
